@@ -379,9 +379,9 @@ def run(c):
                        capture_output=True, text=True)
     if p.returncode != 0:
         raise Infra("c12_trace shim: " + p.stderr[-1000:])
-    env = dict(os.environ, LD_PRELOAD=shim, RBV_LIB=os.path.join(d, "librebound" + SUFFIX))
+    env = dict(os.environ, LD_PRELOAD=shim, RBV_LIB=os.path.join(d, "librebound" + SUFFIX), VERIF_TIER="thorough" if c.thorough else "quick")
     q = subprocess.run(["/venv/bin/python", os.path.join(ROOT, "rv", "c12_worker.py"), d, shim, str(c.seed)],
-                       capture_output=True, text=True, env=env, timeout=900)
+                       capture_output=True, text=True, env=env, timeout=2400)
     res = [l for l in q.stdout.splitlines() if l.startswith("RESULT ")]
     if q.returncode != 0 or not res:
         raise Infra("c12 worker failed: " + (q.stdout + q.stderr)[-1500:])
@@ -394,7 +394,7 @@ def run(c):
             continue
         ncalls += r["ncalls"]
         seen_routines |= set(r["routines"])
-        c.count(("callsite", r["integ"], json.dumps(r["opts"], sort_keys=True), r["safe"], r["split"]), nontrivial=r["split"] != "all")
+        c.count(("callsite", r["integ"], json.dumps(r["opts"], sort_keys=True), r["safe"], r["split"], r.get("pattern"), r.get("keep")), nontrivial=r["split"] != "all")
         # a call that also covers the variational particles behind the real ones (N > N_real) acts on the real
         # particles exactly like (N_real, N_active); the variational sets are re-transformed by their own calls
         r["pairs"] = sorted({(min(pr[0], r["N"]), pr[1]) for pr in r["pairs"]})
@@ -404,7 +404,7 @@ def run(c):
     # integrator-level frame covariance (shifted + boosted twin vs original)
     covw = {}
     for r in wres["cov"]:
-        name = "%s/%s/%s" % (r["integ"], json.dumps(r["opts"], sort_keys=True), r["kind"])
+        name = "%s/%s/%s/%s/%s" % (r["integ"], json.dumps(r["opts"], sort_keys=True), r["kind"], r.get("role", "plain"), r.get("call", "steps"))
         if "error" in r:
             covw[name] = "error: " + r["error"]
             continue
@@ -433,12 +433,80 @@ def run(c):
         dims["COM offset + boost"] += 1
         dims["dt<0"] += bool(r["opts"].get("_negdt"))
         dims["close encounter / rejected step"] += r["kind"] in ("encounter", "approach", "eccentric", "first-step-scan")
+    for r in sites:
+        if "error" in r:
+            continue
+        for k in ("keep_unsynchronized=1", "integrate() with shortened last step", "direction reversal between calls", "user edit + recalculation flag"):
+            dims.setdefault(k, 0)
+        dims["keep_unsynchronized=1"] += r.get("keep") == 1
+        dims["integrate() with shortened last step"] += r.get("pattern") == "integrate-exact"
+        dims["direction reversal between calls"] += r.get("pattern") == "integrate-reversal"
+        dims["user edit + recalculation flag"] += r.get("pattern") == "edit-recalc"
+    for r in wres["cov"]:
+        if "error" in r:
+            continue
+        for k in ("covariance with test particles (type 0)", "covariance with test particles (type 1)", "covariance through integrate() output calls"):
+            dims.setdefault(k, 0)
+        dims["covariance with test particles (type 0)"] += r.get("role") == "tp0"
+        dims["covariance with test particles (type 1)"] += r.get("role") == "tp1"
+        dims["covariance through integrate() output calls"] += r.get("call") == "integrate"
     dims["zero-mass active body"] = zero_mass_cases
     dims["N>=50"] = hist.get(50, 0)
     c.cov["dimensions"] = dims
     for k, v in dims.items():
         if v == 0:
             c.corr_break("dimension not covered: " + k)
+    # ---- pairwise coverage of the call-site factors (full factorial in thorough; rotated slice in quick)
+    facs = ("cfg", "safe", "split", "pattern", "keep")
+    seenp = set(); vals = {f: set() for f in facs}
+    for r in sites:
+        if "error" in r:
+            continue
+        v = dict(cfg=r["integ"] + json.dumps(r["opts"], sort_keys=True), safe=r["safe"], split=r["split"], pattern=r.get("pattern"), keep=r.get("keep"))
+        for f in facs:
+            vals[f].add(v[f])
+        for i, f in enumerate(facs):
+            for g in facs[i + 1:]:
+                seenp.add((f, v[f], g, v[g]))
+    total = 0; excluded = 0; missingp = []
+    for i, f in enumerate(facs):
+        for g in facs[i + 1:]:
+            for a in vals[f]:
+                for b in vals[g]:
+                    # variations exist only for WHFast / Jacobi / default kernel (the code rejects the others)
+                    if "split" in (f, g) and "var" in (a, b) and "cfg" in (f, g):
+                        cfgv = a if f == "cfg" else b
+                        if not (cfgv.startswith("whfast") and '"coordinates": "jacobi"' in cfgv and '"kernel": "default"' in cfgv):
+                            excluded += 1
+                            continue
+                    if (f, a, g, b) == ("safe", 1, "keep", 1):   # rejected by the code ("keep_unsynchronized == 1 is not compatible with safe_mode")
+                        excluded += 1
+                        continue
+                    total += 1
+                    if (f, a, g, b) not in seenp:
+                        missingp.append([f, a, g, b])
+    c.cov["pairs"] = {"covered": len(seenp), "total": total, "excluded": excluded,
+                      "factors": {f: len(vals[f]) for f in facs}, "missing": missingp[:20],
+                      "errors": [dict(cfg=r["integ"] + json.dumps(r["opts"], sort_keys=True), split=r["split"], pattern=r.get("pattern"), keep=r.get("keep"), error=r["error"][:200]) for r in sites if "error" in r][:10]}
+    if c.thorough and len(seenp) < total:
+        c.corr_break("pairwise coverage of the call-site factors incomplete: %d of %d pairs" % (len(seenp), total))
+    # ---- entry points: every routine of transformations.c, the in-place maps of the hybrid integrators and the public
+    #      frame changes named in the anchors must be inside the tie of this run (extracted from the source, not a constant)
+    import re as _re
+    src_t = open(os.path.join(REPO, "src", "transformations.c")).read()
+    entry = set(_re.findall(r"^void\s+reb_particles_transform_(\w+)\s*\(", src_t, flags=_re.M))
+    for f_, pat in (("integrator_mercurius.c", r"^void\s+reb_integrator_(mercurius_(?:inertial_to_dh|dh_to_inertial))\s*\("),
+                    ("integrator_trace.c", r"^void\s+reb_integrator_(trace_(?:inertial_to_dh|dh_to_inertial))\s*\(")):
+        entry |= set(_re.findall(pat, open(os.path.join(REPO, "src", f_)).read(), flags=_re.M))
+    entry |= set(_re.findall(r"^(?:void|struct reb_particle)\s+(reb_simulation_(?:move_to_hel|move_to_com|com))\s*\(", open(os.path.join(REPO, "src", "tools.c")).read(), flags=_re.M))
+    tied = {mt[0] for mt in meta}
+    missing = sorted(e for e in entry if e not in tied)
+    c.cov["entry_points_extracted"] = len(entry)
+    c.cov["entry_points_tied"] = len(entry) - len(missing)
+    if len(entry) < 23:
+        c.corr_break("entry-point extraction found only %d routines (expected the 16 of transformations.c, 4 hybrid maps, 3 frame routines)" % len(entry))
+    if missing:
+        c.corr_break("routines of the anchored files that are not inside the model tie: " + ", ".join(missing))
     c.cov["callsite_configs_traced"] = len(sites)
     c.cov["callsite_transform_calls_traced"] = ncalls
     c.cov["callsite_routines_seen"] = sorted(seen_routines)
